@@ -1,5 +1,5 @@
 import EinxModel.Proofs.CacheConcurrent
-import EinxModel.Props.C06
+import EinxModel.Proofs.Cache
 import EinxModel.Extracted.Cacheconc
 /-!
 C10, second property file — first-time compilation triggered concurrently: the compiled-function cache
@@ -70,13 +70,6 @@ theorem cache_concurrent_serializable (comp : Comp K V) (f : K → Outcome V) (h
   rw [hd, List.append_nil, hp] at hprog
   rw [t.outs, Option.some.inj hprog]
 
-theorem zip_filter_map {α β : Type} (g : α → β) (q : α → Bool) : ∀ l : List α,
-    ((l.zip (l.map g)).filter (fun e => q e.1)).map (·.2) = (l.filter q).map g
-  | [] => rfl
-  | a :: l => by
-    simp only [List.map_cons, List.zip_cons_cons, List.filter_cons]
-    cases q a <;> simp [zip_filter_map g q l]
-
 /-- **The results are those of every serial execution.**  Take any serial order of all calls (a merge of the
 threads' programs, each call tagged with its thread) and run it on the sequential memo machine of C06
 (`Einx.Cache.run`: one call after the other, hits served from the memo).  Each thread observes, call by call, in the
@@ -93,9 +86,12 @@ theorem cache_results_eq_serial_memo (comp : Comp K V) (f : K → Outcome V) (hd
   intro c serial hfin i p hp
   obtain ⟨th, hth, houts⟩ := (cache_concurrent_serializable comp f hdet trim htrim progs sched hfin).1 i p hp
   refine ⟨th, hth, ?_⟩
-  have hser : serial = (order.map (·.2)).map f :=
-    memo_history_outcomes (fun k : K => k) (fun a b => decide (a = b)) id f (fun _ _ he => he)
-      (fun a b hab => by simp only [decide_eq_true_eq] at hab; rw [hab]) (order.map (·.2))
+  -- the sequential memo machine returns `f key` for every call of every history (`run_spec`, as in C06's `memo_history_outcomes`;
+  -- not imported from `Props/C06.lean`, whose obligations depend on another extracted file)
+  have hser : serial = (order.map (·.2)).map f := by
+    have inv0 : MemoInv (fun k : K => k) f (fun _ => True) ([] : Memo K V) := by intro e he; cases he
+    exact (run_spec (fun k : K => k) (fun a b => decide (a = b)) id f (fun _ => True) (fun _ _ he => he)
+      (fun a b _ _ hab => by simp only [decide_eq_true_eq] at hab; rw [hab]) (order.map (·.2)) [] inv0 (fun _ _ => trivial)).1
   rw [houts, hser, List.map_map]
   have := zip_filter_map (fun e : Nat × K => f e.2) (fun e => e.1 == i) order
   simp only [Function.comp_def] at this ⊢
